@@ -1251,7 +1251,10 @@ pub fn BrotliEncoderMaxCompressedSizeMulti(input_size: usize, num_threads: usize
 }
 
 pub fn BrotliEncoderMaxCompressedSize(input_size: usize) -> usize {
-    let magic_size = 16usize;
+    // room for the optional stream headers: large-window WBITS and the metadata block header (4),
+    // magic bytes and version (4), a base-128 size hint of up to 10 bytes, and the header of the
+    // two-byte first block of catable streams (3)
+    let magic_size = 21usize;
     let num_large_blocks: usize = input_size >> 14;
     let tail: usize = input_size.wrapping_sub(num_large_blocks << 24);
     let tail_overhead: usize = (if tail > (1i32 << 20) as usize {
